@@ -16,6 +16,7 @@ From Piko Require Import Base.Maps Base.Strs Gossip.Types Gossip.Local Gossip.Ap
 From Piko Require Import GossipP.Valid NodeLoss.NodeLoss.
 From Piko Require Import NodeLoss.Backoff NodeLossP.BackoffP.
 From Piko Require Import NodeLossP.DecisionP NodeLossP.ShutdownP NodeLossP.LeaveP NodeLossP.RecoveryP NodeLossP.Examples.
+From Piko Require Import Gossip.Round GossipP.RoundP.
 Import ListNotations.
 Open Scope string_scope. Open Scope list_scope.
 
@@ -238,6 +239,48 @@ Example C18_ex_backoff :
   dial_starts 0 (bo_new 0 100 1000) [(5, 100); (7, 210); (5, 420)]%Z = [0; 105; 322; 747]%Z.
 Proof. exact ex_backoff_run. Qed.
 
+(* "announces its departure so that the nodes it notifies stop routing to it at once": whom Gossip.Leave tells
+   (gossip.go Leave, Gossip/Round.v leave_run; rand.Shuffle = the order, `ack` = whether a peer acknowledges the stream).
+   For EVERY shuffle and every pattern of acknowledgements: only peers that are neither the node itself, nor departed, nor
+   considered unreachable, and that acknowledged; min(4, number of acknowledging live peers) of them; no error as soon as
+   one acknowledges; with all streams acknowledged exactly the first four live peers in shuffle order (the `notified_of`
+   of the shutdown model above); and the observable outcome (told set, error verdict) is legal in the sense the harness
+   checks on the real Leave. *)
+Theorem C18_leave_told_sound :
+  forall c ack order x, Permutation order (values (c_nodes c)) ->
+  In x (fst (fst (leave_run c ack order))) ->
+  exists s, In s (values (c_nodes c)) /\ n_id s = x /\ n_id s <> c_local c /\ n_left s = false /\ n_unreach s = false /\ ack x = true.
+Proof. exact leave_told_sound. Qed.
+
+Theorem C18_leave_told_count :
+  forall c ack order,
+  List.length (fst (fst (leave_run c ack order))) = Nat.min 4 (List.length (ackids (c_local c) ack order)) /\
+  (ackids (c_local c) ack order <> [] -> snd (leave_run c ack order) = false).
+Proof. exact leave_told_count. Qed.
+
+Theorem C18_leave_all_ack_is_notified_of :
+  forall c order,
+  fst (fst (leave_run c (fun _ => true) order)) = notified_of (map n_id (filter (leave_candidate (c_local c)) order)).
+Proof. exact leave_all_ack. Qed.
+
+Theorem C18_leave_observation_legal :
+  forall c ack order, Permutation order (values (c_nodes c)) -> NoDup (map n_id (values (c_nodes c))) ->
+  leave_legal c ack (fst (fst (leave_run c ack order))) (snd (leave_run c ack order)) = true.
+Proof. exact leave_run_legal. Qed.
+
+(* the NoDup hypothesis is an invariant of the cluster states of the gossip model (GossipP.ApplyP.wf_c + unique keys) *)
+Theorem C18_leave_ids_nodup :
+  forall c, (forall k s, lookup k (c_nodes c) = Some s -> n_id s = k) -> NoDup (keys (c_nodes c)) ->
+  NoDup (map n_id (values (c_nodes c))).
+Proof. exact ids_nodup. Qed.
+
+Example C18_ex_leave_run :
+  leave_run ex_round_state (fun id => negb (String.eqb id "e")) (rev (values (c_nodes ex_round_state))) = (["b"], ["e"; "b"], false) /\
+  leave_legal ex_round_state (fun id => negb (String.eqb id "e")) ["b"] false = true /\
+  leave_legal ex_round_state (fun _ => true) ["b"] false = false /\
+  leave_run ex_round_state (fun _ => false) (values (c_nodes ex_round_state)) = ([], ["b"; "e"], true).
+Proof. exact ex_round_leave. Qed.
+
 Print Assumptions C18_shutdown_withdraws.
 Print Assumptions C18_advertises_what_it_holds.
 Print Assumptions C18_cancel_before_leave.
@@ -264,3 +307,9 @@ Print Assumptions C18_redial_within.
 Print Assumptions C18_connect_backoff_ok.
 Print Assumptions C18_connect_backoff_defaults.
 Print Assumptions C18_ex_backoff.
+Print Assumptions C18_leave_told_sound.
+Print Assumptions C18_leave_told_count.
+Print Assumptions C18_leave_all_ack_is_notified_of.
+Print Assumptions C18_leave_observation_legal.
+Print Assumptions C18_leave_ids_nodup.
+Print Assumptions C18_ex_leave_run.
